@@ -60,7 +60,17 @@ def run(ctx, rep):
                     for x in f:
                         if x[0] == "cmp" and x[1] == "Lt":
                             bounds.append(x[3])
-        rep.check("C20.const", "MM:SS:FF fields: frames < 75, seconds < 60, minutes unbounded", sorted(bounds) == ["const:60", "const:75"] and len(filt) == 2, loc_of(b), str(bounds),
+        # explicit range tests (if ff >= 75 { return Err }) are the same bounds: comparisons of a body local with a constant
+        explicit = {}
+        for bl in b.blocks:
+            for st_ in bl["s"]:
+                rv = st_["rv"]
+                if rv["r"] == "bin" and rv["op"] in ("Ge", "Lt") and op_int(rv["b"]) is not None and op_place(rv["a"]) is not None:
+                    rp = root_place(b, rv["a"])
+                    if rp is not None:
+                        explicit[rp["l"]] = "const:%d" % op_int(rv["b"])
+        bounds += list(explicit.values())
+        rep.check("C20.const", "MM:SS:FF fields: frames < 75, seconds < 60, minutes unbounded", sorted(bounds) == ["const:60", "const:75"], loc_of(b), str(bounds),
                   "the field range checks of MM:SS:FF are %s (expected exactly ff < 75 and ss < 60; positions above 99 minutes are legal)" % sorted(bounds))
         cm = [t for _, t in b.calls() if re.search(r"<impl u64>::checked_mul$", callee_name(t))]
         good = len(cm) == 1 and backward_slice(b, cm[0]["a"][1])["consts"] >= {75, 60}
@@ -71,6 +81,8 @@ def run(ctx, rep):
 
         def bound_of(parent_local):
             """the `< bound` of the filter the parsed field went through"""
+            if parent_local in explicit:
+                return int(explicit[parent_local][6:])
             sl = backward_slice(b, {"c": {"l": parent_local, "p": []}})
             for c in sl["calls"]:
                 if re.search(r"Option::<T>::filter$", callee_name(c)):
